@@ -448,7 +448,12 @@ Mut(m, t) ==
 \cup (IF "revision" \in Defects /\ t.rev # <<>> /\ t.ver = 2 THEN
         {Tag([t EXCEPT !.rev[1].c.h = @ + 1], "sum"), Tag([t EXCEPT !.rev[1].c.rn = m.c2[t.rev[1].cid].rn], "samern"),
          Tag([t EXCEPT !.rev[1].c.mh = m.c2[t.rev[1].cid].mh + 1, !.rev[1].c.h = @ + 0], "missedup"),
-         Tag([t EXCEPT !.rev[1].c.coll = @ + 1], "coll"), Tag([t EXCEPT !.rev[1].c.cap = @ - 1], "capdown")} ELSE {})
+         Tag([t EXCEPT !.rev[1].c.coll = @ + 1], "coll"), Tag([t EXCEPT !.rev[1].c.cap = @ - 1], "capdown")}
+        \* value moved from the host to the renter until the host's valid output is below its missed value (an expiry
+        \* would then pay out more than is locked); only a defect from the fix height on
+        \cup (IF t.rev[1].c.mh >= 1 /\ child >= EphH
+              THEN {Tag([t EXCEPT !.rev[1].c.h = t.rev[1].c.mh - 1, !.rev[1].c.r = t.rev[1].c.r + t.rev[1].c.h - (t.rev[1].c.mh - 1)], "missedabovehost")}
+              ELSE {}) ELSE {})
 \cup (IF "revision" \in Defects /\ t.rev # <<>> /\ t.ver = 1 THEN
         {Tag([t EXCEPT !.rev[1].c.vo[2].val = @ + 1], "validsum"), Tag([t EXCEPT !.rev[1].c.mo[2].val = @ + 1], "missedsum"),
          Tag([t EXCEPT !.rev[1].c.rn = m.c1[t.rev[1].cid].rn], "samern")} ELSE {})
@@ -481,7 +486,7 @@ BadCand(m) ==
           t \in {u \in Cand(m) : ValidTx(m, u) /\ u.fc = <<>> /\ u.rev = <<>> /\ u.res = <<>> /\ (3 - u.ver) \notin Vers /\ (u.ver = 1 \/ m.nv2 = 0)}} ELSE {})
 \cup (IF "immature" \in Defects THEN
         {[EmptyTx(q[1]) EXCEPT !.sci = <<In(q[2])>>, !.sco = <<Out(m.sc[q[2]].val, m.sc[q[2]].addr)>>, !.tag = "immature"] :
-            q \in Vers \X {y \in DOMAIN sc : y \notin m.spends /\ m.sc[y].mat > child /\ m.sc[y].val > 0 /\ m.sc[y].addr \in Owners}} ELSE {})
+            q \in Vers \X {y \in DOMAIN m.sc : y \notin m.spends /\ m.sc[y].mat > child /\ m.sc[y].val > 0 /\ m.sc[y].addr \in Owners}} ELSE {})
 \* every revision / proof / expiration of every live contract, whatever the height: BadTxn keeps the invalid ones
 \cup (IF "timing" \in Defects THEN
         {Tag(t, "timing") : t \in
